@@ -20,13 +20,30 @@ import (
 	spec "github.com/opencontainers/runtime-spec/specs-go"
 )
 
+// cloneSlice and clonePtr give the OCI Spec copies of its own: what the
+// caller does to the Spec it got back must not reach the cached CDI Specs.
+func cloneSlice[T any](s []T) []T {
+	if s == nil {
+		return nil
+	}
+	return append([]T{}, s...)
+}
+
+func clonePtr[T any](p *T) *T {
+	if p == nil {
+		return nil
+	}
+	v := *p
+	return &v
+}
+
 // toOCI returns the opencontainers runtime Spec Hook for this Hook.
 func (h *Hook) toOCI() spec.Hook {
 	return spec.Hook{
 		Path:    h.Path,
-		Args:    h.Args,
-		Env:     h.Env,
-		Timeout: h.Timeout,
+		Args:    cloneSlice(h.Args),
+		Env:     cloneSlice(h.Env),
+		Timeout: clonePtr(h.Timeout),
 	}
 }
 
@@ -35,7 +52,7 @@ func (m *Mount) toOCI() spec.Mount {
 	return spec.Mount{
 		Source:      m.HostPath,
 		Destination: m.ContainerPath,
-		Options:     m.Options,
+		Options:     cloneSlice(m.Options),
 		Type:        m.Type,
 	}
 }
@@ -47,9 +64,9 @@ func (d *DeviceNode) toOCI() spec.LinuxDevice {
 		Type:     d.Type,
 		Major:    d.Major,
 		Minor:    d.Minor,
-		FileMode: d.FileMode,
-		UID:      d.UID,
-		GID:      d.GID,
+		FileMode: clonePtr(d.FileMode),
+		UID:      clonePtr(d.UID),
+		GID:      clonePtr(d.GID),
 	}
 }
 
